@@ -989,7 +989,24 @@ func c10NetCode(c *Ctx) {
 							return isB && b.Op == op && IsNilConst(b.Y) && types.Identical(b.X.Type(), errType)
 						}
 					}
-					iv := PathQuery{Fn: shoot, Start: do, Assume: []Assumption{{Pred: errNil(token.NEQ), Val: false}, {Pred: errNil(token.EQL), Val: true}},
+					// (a response without a body - res.Body == http.NoBody - has nothing to drain: such paths are left out)
+					noBody := func(op token.Token) func(ssa.Value) bool {
+						return func(v ssa.Value) bool {
+							b, isB := v.(*ssa.BinOp)
+							if !isB || b.Op != op {
+								return false
+							}
+							for _, side := range []ssa.Value{b.X, b.Y} {
+								if u, ok := Strip(side).(*ssa.UnOp); ok && u.Op == token.MUL {
+									if g, isG := u.X.(*ssa.Global); isG && g.Name() == "NoBody" && g.Pkg != nil && g.Pkg.Pkg.Path() == "net/http" {
+										return true
+									}
+								}
+							}
+							return false
+						}
+					}
+					iv := PathQuery{Fn: shoot, Start: do, Assume: []Assumption{{Pred: errNil(token.NEQ), Val: false}, {Pred: errNil(token.EQL), Val: true}, {Pred: noBody(token.EQL), Val: false}, {Pred: noBody(token.NEQ), Val: true}},
 						Exit: func(b *ssa.BasicBlock) bool { return ExitOf(b) == ExitReturn && b != shoot.Recover },
 						Weight: func(in ssa.Instruction) (int, int) {
 							if isBodyRead(in) {
